@@ -15,7 +15,8 @@ RULE = ('Part 1: exhaustive over the 80-letter alphabet x gene positions 0..3 x 
 ASSUMPTIONS = ['float results may exceed a bound by 1e-9 * max(1, |min|, |max|) (the last letter decodes to max + 1 ulp for some '
                'fractional ranges - float noise, not a range error); ints must be exact ints in range',
                'Part 2 compares with the real decoder output (checked in Part 1) and with the declared defaults / passed dict']
-MIN_OBS = {'decodes': 50000, 'declarations': 200, 'monotone_pairs': 50000, 'hp_sessions': 30, 'hp_observations': 500}
+MIN_OBS = {'decodes': 50000, 'declarations': 200, 'monotone_pairs': 50000, 'hp_sessions': 30, 'hp_observations': 500,
+           'declarations_with_zero_default': 4}
 EXHAUSTIVE_NOTE = 'Part 1 enumerates every letter of the alphabet at every gene position for every generated declaration'
 ALPHABET = r'()*+,-./0123456789:;<=>?@ABCDEFGHIJKLMNOPQRSTUVWXYZ[\]^_`abcdefghijklmnopqrstuvw'
 
@@ -108,8 +109,17 @@ def _part2(job):
         has_dna = job['dna'][i]
         decl = []
         if has_defaults:
-            decl = [{'name': 'a' if i == 0 else 'c', 'type': 'int', 'min': 1, 'max': 100, 'default': 10 + i},
-                    {'name': 'b' if i == 0 else 'd', 'type': 'float', 'min': -1.0, 'max': 1.0, 'default': 0.5 - i}]
+            # bounds of either sign; the declared default is often a boundary or exactly zero (0 / 0.0 are falsy values)
+            imin = rng.choice([-10, -5, 0, 1])
+            imax = imin + rng.choice([5, 20, 100])
+            idef = rng.choice([0 if imin <= 0 <= imax else imin, imin, imax, rng.randint(imin, imax)])
+            fmin = rng.choice([-1.0, -2.5, 0.0, 0.5])
+            fmax = fmin + rng.choice([1.0, 2.0, 7.5])
+            fdef = rng.choice([0.0 if fmin <= 0.0 <= fmax else fmin, fmin, fmax, round(rng.uniform(fmin, fmax), 3)])
+            decl = [{'name': 'a' if i == 0 else 'c', 'type': 'int', 'min': imin, 'max': imax, 'default': idef},
+                    {'name': 'b' if i == 0 else 'd', 'type': 'float', 'min': fmin, 'max': fmax, 'default': fdef}]
+            if idef == 0 or fdef == 0.0:
+                cnt['declarations_with_zero_default'] = cnt.get('declarations_with_zero_default', 0) + 1
         dna = ''.join(rng.choice(ALPHABET) for _ in decl) if (has_dna and decl) else ''
         script = {'seed': rng.randrange(1 << 30), 'p_enter': 0.05, 'observe': 'light', 'log_hp': True, 'hyperparameters': decl,
                   'dna': dna, 'sl': 0.01, 'tp': 0.01, 'entry': 'market'}
